@@ -1,5 +1,6 @@
 import Lemmas.FixedConv
 import Lemmas.FixedRat
+import Lemmas.FixedFloatConv
 /-! # C03 — fixed-point arithmetic equals exact decimal arithmetic truncated toward zero
 
 Property theorems only.  The executable model is `Model/Fixed.lean` (`Fixed.F64.*` = `f64.Int[T]` on wrapping `int64`
@@ -14,7 +15,7 @@ configuration, so every clause is stated on the raw scaled integers:
 driver takes it, `driver_multiplier_from_table`).  `fits64` / `fits128` are the explicit representability hypotheses of
 the property (exact result and, for Mul/Div/Mod, the intermediate product). -/
 namespace C03
-open Fixed Fixed.Spec Fixed.Rat
+open Fixed Fixed.Spec Fixed.Rat Fixed.FloatLemmas
 
 /-! ## configurations -/
 
@@ -243,6 +244,145 @@ theorem f64_fraction_value (m n d : Int) (hm : Mult m) (hn : fits64 (-(n * m))) 
     · simp only [hneg, if_false]
       rw [F64.div_eq h0 hp hq]; rfl
 
+/-- f128 `Fraction.Value` = numerator / denominator truncated toward zero to D places; 0 for a zero denominator
+    (`Uint128.Div` taken by its contract, as everywhere in the f128 model: the denominator and its negation must be
+    representable) -/
+theorem f128_fraction_value (m n d : Int) (hm : Mult m) (hn : fits128 (-(n * m))) (hd : fits128 (-(d * m)))
+    (hdf : fits128 d) (hdn : fits128 (-d)) (hp : fits128 (n * m)) (hq : fits128 ((n * m).tdiv d)) :
+    F128.fracValue m n d = some (if d = 0 then 0 else (n * m).tdiv d) := by
+  have hm0 := hm.pos
+  unfold F128.fracValue
+  rw [F128.fracNormalize_eq hm hn hd]
+  by_cases h0 : d = 0
+  · simp only [h0, if_true]
+    rw [F128.div_eq (fits128_of_fits64 hm.fits64) (by omega) (by simp [fits128]) (by simp [fits128])]; simp [fxDiv]
+  · simp only [h0, if_false]
+    by_cases hneg : d < 0
+    · simp only [hneg, if_true]
+      have e : (-n * m).tdiv (-d) = (n * m).tdiv d := by rw [Int.neg_mul, Int.neg_tdiv_neg]
+      rw [F128.div_eq hdn (by omega) (by rw [Int.neg_mul]; exact hn) (by rw [e]; exact hq)]
+      simp only [fxDiv, e]
+    · simp only [hneg, if_false]
+      rw [F128.div_eq hdf h0 hp hq]; rfl
+
+/-! ## From / As for floats (float64 kinds)
+
+The float paths are modelled in `Model/FixedFloat.lean` on the binary64 model `GoSem.F64` (every operation = the exact
+rational result rounded once to nearest-even; validated bit for bit against the hardware by C02) and run against the Go
+code by the area `fxfloatm` of the check.  `fval x` is the rational value of a finite float, `value m r = r / m` the
+value of a raw scaled integer.  Trusted parameters (contracts of the standard library, stated in the model):
+`strconv.ParseFloat` returns the nearest float, ties to even; `big.Float.Quo` / `Float64` round to nearest even;
+`big.Float.Text('f', n)` is the exact expansion rounded to nearest even at `n` digits. -/
+
+/-- f64 `From` of a float, sharp form.  Hypothesis = domain: Go defines the float → int64 conversion of the rounded
+    product only when it truncates into int64 (`.ok r`; NaN, ±Inf and out-of-range products are `implDefined`, on which
+    nothing is claimed).  The product `x · mult` is rounded once, then truncated toward zero: the raw result is less
+    than one raw unit from `x · mult`, or (when the rounded product is an integer ≥ 2^52, so nothing is truncated) within
+    `2^-53` of it relatively. -/
+theorem f64_from_float_sharp (m : Int) (hm : Mult m) (x : Flt) (r : Int) (h : F64.fromFloat m x = .ok r) :
+    |(r : ℚ) - fval x * m| < 1 ∨ |(r : ℚ) - fval x * m| ≤ |fval x * m| / 2 ^ 53 :=
+  f64_from_val m hm x r h
+
+/-- f64 `From` of a float: off by at most one unit of the last decimal place or one part in 2^53 of the value,
+    whichever is larger (the property allows 2^52) -/
+theorem f64_from_float_bound (m : Int) (hm : Mult m) (x : Flt) (r : Int) (h : F64.fromFloat m x = .ok r) :
+    |value m r - fval x| ≤ max (1 / (m : ℚ)) (|fval x| / 2 ^ 53) := by
+  have hmq : (0 : ℚ) < (m : ℚ) := by exact_mod_cast hm.pos
+  have e : value m r - fval x = ((r : ℚ) - fval x * m) / m := by unfold value; field_simp
+  rw [e, abs_div, abs_of_pos hmq]
+  rcases f64_from_val m hm x r h with h1 | h1
+  · exact le_trans (div_le_div_of_nonneg_right (le_of_lt h1) (le_of_lt hmq)) (le_max_left _ _)
+  · refine le_trans (div_le_div_of_nonneg_right h1 (le_of_lt hmq)) (le_trans (le_of_eq ?_) (le_max_right _ _))
+    rw [abs_mul, abs_of_pos hmq]; field_simp
+
+/-- the domain hypothesis of `f64_from_float_sharp` is not vacuous in general: every finite float with
+    `|x|·mult ≤ 2^62` is inside it (the exact domain is: the rounded product truncates into int64) -/
+theorem f64_from_float_defined (m : Int) (hm : Mult m) (s : Bool) (mx : Nat) (ex : Int)
+    (hb : |fval (.fin s mx ex)| * m ≤ 2 ^ 62) : ∃ r, F64.fromFloat m (.fin s mx ex) = .ok r := by
+  apply f64_from_defined m hm s mx ex
+  have h0 : (0 : ℚ) ≤ (mx : ℚ) * (2 : ℚ) ^ ex := mul_nonneg (Nat.cast_nonneg _) (le_of_lt (zp_pos ex))
+  have e : |fval (.fin s mx ex)| = (mx : ℚ) * (2 : ℚ) ^ ex := by
+    unfold fval; rw [abs_sgn_mul, abs_of_nonneg h0]
+  rw [e] at hb; exact hb
+
+/-- the floating-point product inside f64 `From` is a single rounding: for a finite non-zero `x` it overflows only when
+    `|x|·mult ≥ 2^1023`, and otherwise is a float of the sign of `x` within half a unit of its last place of the exact
+    product, and within `2^-53` of it relatively in the normal range (`float64(mult)` itself is exact) -/
+theorem f64_from_float_product (m : Int) (hm : Mult m) (s : Bool) (mx : Nat) (ex : Int) (hmx : mx ≠ 0) :
+    (GoSem.F64.mul (.fin s mx ex) (F64.multF m) = .inf s ∧ (2 : ℚ) ^ (1023 : ℤ) ≤ (mx : ℚ) * (2 : ℚ) ^ ex * m) ∨
+     ∃ m' e', GoSem.F64.mul (.fin s mx ex) (F64.multF m) = .fin s m' e' ∧
+      |(m' : ℚ) * (2 : ℚ) ^ e' - (mx : ℚ) * (2 : ℚ) ^ ex * m| ≤ (2 : ℚ) ^ e' / 2 ∧
+      ((2 : ℚ) ^ (-1022 : ℤ) ≤ (mx : ℚ) * (2 : ℚ) ^ ex * m →
+        |(m' : ℚ) * (2 : ℚ) ^ e' - (mx : ℚ) * (2 : ℚ) ^ ex * m| ≤ (mx : ℚ) * (2 : ℚ) ^ ex * m / 2 ^ 53) := by
+  rcases (mul_multF_val m hm s mx ex hmx).2 with h | ⟨m', e', h1, _, h3, h4⟩
+  · exact Or.inl h
+  · exact Or.inr ⟨m', e', h1, h3, h4⟩
+
+/-- f64 `As` to float64 is *by definition of the model* the float64 nearest (ties to even) to `raw / mult` — the
+    documented contract of `strconv.ParseFloat` applied to the exact decimal text of `String()` (C04) -/
+theorem f64_as_float_nearest (m a : Int) :
+    F64.asFloat m a = if a = 0 then GoSem.F64.zero
+      else GoSem.F64.decode (GoSem.F64.roundRatN (decide (a < 0)) a.natAbs m.toNat) := by
+  unfold F64.asFloat GoSem.F64.ofSigned GoSem.F64.ofRat GoSem.F64.zero
+  by_cases h : a = 0 <;> simp [h]
+
+/-- f64 `As` to float64: finite for every raw value, and within one part in 2^53 of the value (half a unit in the
+    last place of the float; the property allows 2^52 or one decimal unit) -/
+theorem f64_as_float_bound (m a : Int) (hm : Mult m) (ha : fits64 a) :
+    (∃ s mm e, F64.asFloat m a = .fin s mm e) ∧
+      |fval (F64.asFloat m a) - value m a| ≤ |value m a| / 2 ^ 53 := by
+  obtain ⟨s, mm, e, h1, h2⟩ := f64_as_val m a hm ha
+  exact ⟨⟨s, mm, e, h1⟩, h2⟩
+
+/-- f128 `From` of a float is defined everywhere: NaN panics (`big.ErrNaN`, `none`), ±Inf give 0 (`FromString`
+    rejects the text) -/
+theorem f128_from_float_special (m : Int) (places : Nat) :
+    F128.fromFloat m places .nan = none ∧ ∀ s, F128.fromFloat m places (.inf s) = some 0 :=
+  ⟨rfl, fun _ => rfl⟩
+
+/-- f128 `From` of a finite float whose result is not saturated (strictly inside the 128-bit range): the exact decimal
+    expansion rounded at D+1 digits and cut to D digits is less than one unit of the last place from the value (at most
+    19/20 of a unit).  `p` is the row (places, multiplier) of the configuration, as the driver passes it. -/
+theorem f128_from_float_bound (p : Nat × Int) (hp : p ∈ Facts.fixedConfigs) (x : Flt) (r : Int)
+    (h : F128.fromFloat p.2 p.1 x = some r) (h1 : F128.minRaw < r) (h2 : r < F128.maxRaw) :
+    |value p.2 r - fval x| ≤ 19 / 20 / (p.2 : ℚ) ∧ |value p.2 r - fval x| < 1 / (p.2 : ℚ) := by
+  have hb := f128_from_val p hp x r h h1 h2
+  have hm : Mult p.2 := ⟨p, hp, rfl⟩
+  have hmq : (0 : ℚ) < (p.2 : ℚ) := by exact_mod_cast hm.pos
+  refine ⟨hb, lt_of_le_of_lt hb ?_⟩
+  exact div_lt_div_of_pos_right (by norm_num) hmq
+
+/-- f128 `As` to float64 (quotient rounded to 128 bits, then to 53): finite for every raw value, and within one part
+    in 2^52 of the value — sharper: `2^-53·(1 + 2^-128) + 2^-128` -/
+theorem f128_as_float_bound (m a : Int) (hm : Mult m) (ha : fits128 a) :
+    (∃ s mm e, F128.asFloat m a = .fin s mm e) ∧
+      |fval (F128.asFloat m a) - value m a| ≤ |value m a| * (1 / 2 ^ 53 + 1 / 2 ^ 181 + 1 / 2 ^ 128) ∧
+      |fval (F128.asFloat m a) - value m a| ≤ |value m a| / 2 ^ 52 := by
+  obtain ⟨s, mm, e, h1, h2⟩ := f128_as_val m a hm ha
+  refine ⟨⟨s, mm, e, h1⟩, h2, le_trans h2 ?_⟩
+  have h0 : (0 : ℚ) ≤ |value m a| := abs_nonneg _
+  have k1 : (1 : ℚ) / 2 ^ 181 ≤ 1 / 2 ^ 55 :=
+    one_div_le_one_div_of_le (by positivity) (pow_le_pow_right₀ (by norm_num) (by norm_num))
+  have k2 : (1 : ℚ) / 2 ^ 128 ≤ 1 / 2 ^ 55 :=
+    one_div_le_one_div_of_le (by positivity) (pow_le_pow_right₀ (by norm_num) (by norm_num))
+  have k3 : (1 : ℚ) / 2 ^ 53 + 1 / 2 ^ 55 + 1 / 2 ^ 55 ≤ 1 / 2 ^ 52 := by norm_num
+  have key : (1 : ℚ) / 2 ^ 53 + 1 / 2 ^ 181 + 1 / 2 ^ 128 ≤ 1 / 2 ^ 52 := by linarith
+  calc |value m a| * (1 / 2 ^ 53 + 1 / 2 ^ 181 + 1 / 2 ^ 128) ≤ |value m a| * (1 / 2 ^ 52) :=
+        mul_le_mul_of_nonneg_left key h0
+    _ = |value m a| / 2 ^ 52 := by ring
+
+/-- the literal bound of the property for every float64 conversion: max(one unit of the last place, 2^-52 relative) -/
+theorem float_conversions_within_property_bound (m : Int) (hm : Mult m) :
+    (∀ x r, F64.fromFloat m x = .ok r → |value m r - fval x| ≤ max (1 / (m : ℚ)) (|fval x| / 2 ^ 52)) ∧
+    (∀ a, fits64 a → |fval (F64.asFloat m a) - value m a| ≤ max (1 / (m : ℚ)) (|value m a| / 2 ^ 52)) ∧
+    (∀ a, fits128 a → |fval (F128.asFloat m a) - value m a| ≤ max (1 / (m : ℚ)) (|value m a| / 2 ^ 52)) := by
+  have mono : ∀ v : ℚ, |v| / 2 ^ 53 ≤ |v| / 2 ^ 52 := fun v =>
+    div_le_div_of_nonneg_left (abs_nonneg v) (by norm_num) (by norm_num)
+  refine ⟨fun x r h => ?_, fun a ha => ?_, fun a ha => ?_⟩
+  · exact le_trans (f64_from_float_bound m hm x r h) (max_le_max (le_refl _) (mono _))
+  · exact le_trans (f64_as_float_bound m a hm ha).2 (le_trans (mono _) (le_max_right _ _))
+  · exact le_trans (f128_as_float_bound m a hm ha).2.2 (le_max_right _ _)
+
 /-! ## MaxSafeMultiply -/
 
 /-- f64 `MaxSafeMultiply` is `Max / mult`, and every value up to it (in magnitude) can be scaled by the multiplier
@@ -342,5 +482,11 @@ example : Mult 100 := ⟨(2, 100), by decide, rfl⟩
 example : AllFit64Bin 100 .mod (-700) 300 := by simp [AllFit64Bin, fits64]
 example : F64.round 100 (-150) = -200 ∧ F128.round 100 (-150) = -200 ∧ F64.round 100 (-50) = -100 := by decide
 example : F64.mod 100 (-700) 300 = some (-100) ∧ F128.mod 100 (-700) 300 = some (-100) := by decide
+/-- the float hypotheses are satisfiable: 0.29 (bits 3fd28f5c28f5c28f) at D2 is raw 28 in f64 (the rounded product is
+    28.999999999999996) and raw 29 in f128 (the expansion 0.28999…98 rounded at three digits is 0.290) -/
+example : F64.fromFloat 100 (GoSem.F64.decode 0x3fd28f5c28f5c28f) = .ok 28 ∧
+    F128.fromFloat 100 2 (GoSem.F64.decode 0x3fd28f5c28f5c28f) = some 29 := by decide
+example : (F64.asFloat 100 29).toBits = 0x3fd28f5c28f5c28f ∧ (F128.asFloat 100 29).toBits = 0x3fd28f5c28f5c28f := by
+  decide
 
 end C03
